@@ -18,7 +18,7 @@ file is the same for `URL.build(…, encoded=True)` (`build_pre_encoded_url`):
    lower-casing), user / password verbatim (`make_netloc(…, encode=False)`: an empty user is dropped, `user:password@`
    as soon as a password — even "" — is given), the port dropped iff it equals `DEFAULT_PORTS.get(scheme)` for the
    scheme AS GIVEN ("HTTP" has no default port: ":80" stays); without `authority=` and `host=` the authority is
-   empty and user / password / port 0 are silently dropped;
+   empty and user / password are silently dropped (a port — 0 included — without a host raises);
  * `C07_build_encoded_accessors`: the raw authority accessors of the result are the `Rfc.authoritySplit`
    components of that text (as for the constructor);
  * which argument conflicts still raise: ALL of them (they are tested before `encoded` is looked at) — and nothing
@@ -30,8 +30,8 @@ open NetlocLemmas
 
 /-- the argument checks of `URL.build`, in source order (`none` = all passed); they do not depend on `encoded` -/
 def C07_buildArgCheck (a : BuildArgs) : Option PyErr :=
+  -- `port is not None` (a port of 0 counts: both checks test `port is not None`, not the truthiness of `port`)
   let portTruthy := match a.portKind, a.port with
-    | 0, some p => p ≠ 0
     | 0, none => false
     | _, _ => true
   -- 'Can't mix "authority" with "user", "password", "host" or "port".'
@@ -271,7 +271,8 @@ theorem C07_build_encoded_instance :
     (default port dropped, `query_string=` verbatim); `build(scheme='http', authority='U@H:080', path='x',
     query='a b=c', encoded=True)` → `('http','U@H:080','x','a+b=c','')` (a str `query=` is quoted);
     `build(scheme='http', host='h', port=81, user='', encoded=True)` → authority "h:81" (empty user dropped);
-    `build(user='u', password='p', port=0, path='p', encoded=True)` → no authority at all. -/
+    `build(user='u', password='p', path='p', encoded=True)` → no authority at all; the same call with `port=0`
+    raises ValueError ('Can't build URL with "port" but without "host".': `port is not None`). -/
 theorem C07_build_encoded_instances :
     build e0 {
                scheme := "http".toStr, host := "h".toStr, port := some 80, path := "x".toStr,
@@ -284,13 +285,17 @@ theorem C07_build_encoded_instances :
     build e0 { scheme := "http".toStr, host := "h".toStr, port := some 81, user := some [], encoded := true } =
       .ok (fromParts "http".toStr "h:81".toStr [] [] []) ∧
     build e0 {
+               user := some "u".toStr, password := some "p".toStr, path := "p".toStr,
+               encoded := true } = .ok (fromParts [] [] "p".toStr [] []) ∧
+    build e0 {
                user := some "u".toStr, password := some "p".toStr, port := some 0, path := "p".toStr,
-               encoded := true } = .ok (fromParts [] [] "p".toStr [] []) := by
-  refine ⟨by decide +kernel, by decide +kernel, by decide +kernel, by decide +kernel⟩
+               encoded := true } = .error .valueError := by
+  refine ⟨by decide +kernel, by decide +kernel, by decide +kernel, by decide +kernel, by decide +kernel⟩
 
 /-- the argument conflicts still raise with `encoded=True` (Python: `URL.build(encoded=True, authority='a', host='h')`,
     `…(authority='a', user='u')`, `…(port=80)`, `…(host='h', port=70000)`, `…(host='h', port=True)`,
-    `…(query='a', query_string='b')`), while `authority='a', port=0` and `authority='a', user='', password=''` pass -/
+    `…(query='a', query_string='b')`, and — `port is not None` — `authority='a', port=0`), while
+    `authority='a', user='', password=''` passes -/
 theorem C07_build_encoded_conflicts :
     build e0 { authority := "a".toStr, host := "h".toStr, encoded := true } = .error .valueError ∧
     build e0 { authority := "a".toStr, user := some "u".toStr, encoded := true } = .error .valueError ∧
@@ -298,7 +303,7 @@ theorem C07_build_encoded_conflicts :
     build e0 { host := "h".toStr, port := some 70000, encoded := true } = .error .valueError ∧
     build e0 { host := "h".toStr, portKind := 1, encoded := true } = .error .typeError ∧
     build e0 { query := .str "a".toStr, queryString := "b".toStr, encoded := true } = .error .valueError ∧
-    build e0 { authority := "a".toStr, port := some 0, encoded := true } = .ok (fromParts [] "a".toStr [] [] []) ∧
+    build e0 { authority := "a".toStr, port := some 0, encoded := true } = .error .valueError ∧
     build e0 { authority := "a".toStr, user := some [], password := some [], encoded := true } =
       .ok (fromParts [] "a".toStr [] [] []) := by
   refine ⟨by decide +kernel, by decide +kernel, by decide +kernel, by decide +kernel, by decide +kernel,
